@@ -73,7 +73,7 @@ def campaign(pid, target, caps, seconds, seed, nworkers, max_len=1200):
         ntsum += nt
         distinct += len(hs)
         for art in sorted(glob.glob(os.path.join(adir, "crash-*")) + glob.glob(os.path.join(adir, "leak-*"))):
-            dst_dir = os.path.join(VERIF, "replays", pid)
+            dst_dir = os.path.join(os.environ.get("VERIF_FAIL_DIR", os.path.join(VERIF, "replays")), pid)
             os.makedirs(dst_dir, exist_ok=True)
             dst = os.path.join(dst_dir, "fail-%s-q%d-%s" % (target, q, os.path.basename(art)))
             shutil.copy(art, dst)
